@@ -500,5 +500,152 @@ theorem releaseNameplate_iso (h : IsoRel b ρ s₁ s₂) {name side : String} {t
 
 end nameplates
 
+/-! ### prune -/
+
+section prune
+variable {b : String} {ρ : Nat → Nat} {s₁ s₂ : Sys}
+
+theorem mem_npIdsB_delById {d : Chan} {b : String} {i k : Nat} :
+    k ∈ ((d.delNpSidesOf i).delNameplate i).npIdsB b ↔ k ∈ d.npIdsB b ∧ ¬ k = i := by
+  simp only [Chan.mem_npIdsB, Chan.delNameplate, Chan.delNpSidesOf, List.mem_filter, decide_eq_true_eq, decide_not,
+    Bool.not_eq_eq_eq_not, Bool.not_true, decide_eq_false_iff_not]
+  constructor
+  · rintro ⟨n, ⟨h1, h2⟩, h3, rfl⟩; exact ⟨⟨n, h1, h3, rfl⟩, h2⟩
+  · rintro ⟨⟨n, h1, h3, rfl⟩, h2⟩; exact ⟨n, ⟨h1, h2⟩, h3, rfl⟩
+
+/-- the touch loop of `prune` -/
+theorem touchListened_iso (h : IsoRel b ρ s₁ s₂) (now : Time) :
+    IsoRel b ρ (s₁.touchListened b now) (s₂.touchListened b now) := by
+  unfold Sys.touchListened
+  apply h.modDb
+  apply h.db.mapMailboxes
+  · intro r; split <;> simp
+  · intro r _ _
+    rw [h.listeners r.id]
+
+/-- the loop over `old_nameplates` -/
+theorem pruneNameplates_iso (now : Time) : ∀ (l : List Nameplate) {s₁ s₂ : Sys}, IsoRel b ρ s₁ s₂ →
+    (∀ n ∈ l, n.id ∈ s₁.db.npIdsB b) → l.Pairwise (fun x y => ¬ x.id = y.id) →
+    IsoRel b ρ (s₁.pruneNameplates b now l).1 (s₂.pruneNameplates b now (l.map (Chan.rnNp ρ))).1 ∧
+      (s₁.pruneNameplates b now l).2 = (s₂.pruneNameplates b now (l.map (Chan.rnNp ρ))).2
+  | [], _, _, h, _, _ => ⟨h, rfl⟩
+  | np :: rest, s₁, s₂, h, hl, hd => by
+    have hi : np.id ∈ s₁.db.npIdsB b := hl np (by simp)
+    have hs : (s₂.db.npSidesOf (ρ np.id)).map (·.added) = (s₁.db.npSidesOf np.id).map (·.added) := by
+      rw [h.db.npSidesOf hi, List.map_map]; rfl
+    have h2 := h.modDb (fun d => (d.delNpSidesOf np.id).delNameplate np.id)
+      (fun d => (d.delNpSidesOf (ρ np.id)).delNameplate (ρ np.id)) (h.db.delById hi)
+    obtain ⟨h3, hb⟩ := h2.uNp hs now true
+    simp only [List.map_cons, pruneNameplates_cons, Chan.rnNp_id]
+    cases e₁ : (s₁.modDb (fun d => (d.delNpSidesOf np.id).delNameplate np.id)).uNp b (s₁.db.npSidesOf np.id) now true with
+    | mk a₁ b₁ =>
+      cases e₂ : (s₂.modDb (fun d => (d.delNpSidesOf (ρ np.id)).delNameplate (ρ np.id))).uNp b
+          (s₂.db.npSidesOf (ρ np.id)) now true with
+      | mk a₂ b₂ =>
+        rw [e₁, e₂] at h3 hb
+        dsimp only at h3 hb
+        subst hb
+        cases b₁ with
+        | false => exact ⟨h3, rfl⟩
+        | true =>
+          dsimp only
+          have hdb : a₁.db = (s₁.db.delNpSidesOf np.id).delNameplate np.id := by
+            have := (s₁.modDb (fun d => (d.delNpSidesOf np.id).delNameplate np.id)).uNp_db b (s₁.db.npSidesOf np.id) now true
+            rw [e₁] at this; exact this
+          apply pruneNameplates_iso now rest h3
+          · intro n hn
+            rw [hdb, mem_npIdsB_delById]
+            exact ⟨hl n (by simp [hn]), fun e => (List.rel_of_pairwise_cons hd hn) e.symm⟩
+          · exact (List.pairwise_cons.1 hd).2
+
+/-- the loop over `old_mailboxes` -/
+theorem pruneMailboxes_iso (now : Time) : ∀ (l : List MailboxRow) {s₁ s₂ : Sys}, IsoRel b ρ s₁ s₂ →
+    (∀ r ∈ l, s₁.db.HasMb b r.id) → l.Pairwise (fun x y => ¬ x.id = y.id) →
+    IsoRel b ρ (s₁.pruneMailboxes b now l) (s₂.pruneMailboxes b now l)
+  | [], _, _, h, _, _ => h
+  | row :: rest, s₁, s₂, h, hl, hd => by
+    rw [pruneMailboxes_cons, pruneMailboxes_cons]
+    have hm : s₁.db.HasMb b row.id := hl row (by simp)
+    rw [h.db.mbSidesOf hm]
+    have h2 := h.modDb (fun d => ((d.delMessagesOf row.id).delMbSidesOf row.id).delMailbox row.id)
+      (fun d => ((d.delMessagesOf row.id).delMbSidesOf row.id).delMailbox row.id)
+      ((h.db.delMessagesOf row.id).delMbBlock row.id)
+    apply pruneMailboxes_iso now rest (h2.uMb row.forNp _ now true)
+    · intro r hr
+      rw [uMb_db, modDb_db, Chan.hasMb_delMailbox]
+      exact ⟨by simpa using hl r (by simp [hr]), fun e => (List.rel_of_pairwise_cons hd hr) e.symm⟩
+    · exact (List.pairwise_cons.1 hd).2
+
+/-- `AppNamespace.prune` of app `b` -/
+theorem prune_iso (h : IsoRel b ρ s₁ s₂) (hp : s₁.db.PInv) {now old : Time} {s₁' s₂' : Sys} {r₁ r₂ : Bool}
+    (e₁ : s₁.prune b now old = (s₁', r₁)) (e₂ : s₂.prune b now old = (s₂', r₂)) :
+    IsoRel b ρ s₁' s₂' ∧ r₁ = r₂ := by
+  rw [prune_eq, pruneRest_eq] at e₁ e₂
+  dsimp only at e₁ e₂
+  have h1 : IsoRel b ρ ((s₁.touchListened b now).commit) ((s₂.touchListened b now).commit) :=
+    (touchListened_iso h now).commit
+  have hp1 : ((s₁.touchListened b now).commit).db.PInv := by
+    rw [commit_db, touchListened_db]
+    exact hp.mapMailboxes _ (s₁.touchFn_keys b now)
+  rw [h1.db.mailboxesOfApp, h1.db.nameplatesOfApp, List.filter_map] at e₂
+  have hcomp : ((fun r : Nameplate => decide (r.mailbox ∈ List.map (fun x => x.id)
+      (List.filter (fun r => decide ¬r.updated > old) (((s₁.touchListened b now).commit).db.mailboxesOfApp b)))) ∘
+        Chan.rnNp ρ) = (fun r : Nameplate => decide (r.mailbox ∈ List.map (fun x => x.id)
+      (List.filter (fun r => decide ¬r.updated > old) (((s₁.touchListened b now).commit).db.mailboxesOfApp b)))) := by
+    funext r; rfl
+  rw [hcomp] at e₂
+  -- the two lists
+  have hnpl : ∀ n ∈ (((s₁.touchListened b now).commit).db.nameplatesOfApp b).filter (fun r => r.mailbox ∈
+      ((((s₁.touchListened b now).commit).db.mailboxesOfApp b).filter (fun r => ¬ r.updated > old)).map (·.id)),
+      n.id ∈ ((s₁.touchListened b now).commit).db.npIdsB b :=
+    fun n hn => Chan.mem_nameplatesOfApp_npIdsB (List.mem_filter.1 hn).1
+  have hnpd : ((((s₁.touchListened b now).commit).db.nameplatesOfApp b).filter (fun r => r.mailbox ∈
+      ((((s₁.touchListened b now).commit).db.mailboxesOfApp b).filter (fun r => ¬ r.updated > old)).map (·.id))).Pairwise
+      (fun x y => ¬ x.id = y.id) := ((hp1.npIds.filter _).filter _)
+  have hmbl : ∀ r ∈ (((s₁.touchListened b now).commit).db.mailboxesOfApp b).filter (fun r => ¬ r.updated > old),
+      ((s₁.touchListened b now).commit).db.HasMb b r.id := by
+    intro r hr
+    have := (List.mem_filter.1 (List.mem_filter.1 hr).1)
+    exact ⟨r, this.1, rfl, by simpa using this.2⟩
+  have hmbd : ((((s₁.touchListened b now).commit).db.mailboxesOfApp b).filter (fun r => ¬ r.updated > old)).Pairwise
+      (fun x y => ¬ x.id = y.id) := ((hp1.mbIds.filter _).filter _)
+  obtain ⟨h2, hb⟩ := pruneNameplates_iso now _ h1 hnpl hnpd
+  cases ea : ((s₁.touchListened b now).commit).pruneNameplates b now
+      ((((s₁.touchListened b now).commit).db.nameplatesOfApp b).filter (fun r => r.mailbox ∈
+      ((((s₁.touchListened b now).commit).db.mailboxesOfApp b).filter (fun r => ¬ r.updated > old)).map (·.id))) with
+  | mk a₁ b₁ =>
+    cases eb : ((s₂.touchListened b now).commit).pruneNameplates b now
+        (((((s₁.touchListened b now).commit).db.nameplatesOfApp b).filter (fun r => r.mailbox ∈
+        ((((s₁.touchListened b now).commit).db.mailboxesOfApp b).filter (fun r => ¬ r.updated > old)).map (·.id))).map
+          (Chan.rnNp ρ)) with
+    | mk a₂ b₂ =>
+      rw [ea, eb] at h2 hb
+      rw [ea] at e₁; rw [eb] at e₂
+      dsimp only at h2 hb
+      subst hb
+      cases b₁ with
+      | false => cases e₁; cases e₂; exact ⟨h2, rfl⟩
+      | true =>
+        dsimp only at e₁ e₂
+        have hmbl' : ∀ r ∈ (((s₁.touchListened b now).commit).db.mailboxesOfApp b).filter (fun r => ¬ r.updated > old),
+            a₁.db.HasMb b r.id := by
+          intro r hr
+          have hq := (pruneNameplates_spec (app := b) (now := now) _ ea).1
+          obtain ⟨m0, g1, g2, g3⟩ := hmbl r hr
+          exact ⟨m0, by rw [hq.mailboxes]; exact g1, g2, g3⟩
+        have h3 := pruneMailboxes_iso now _ h2 hmbl' hmbd
+        simp only [ne_eq, List.map_eq_nil_iff] at e₁ e₂
+        split at e₁
+        · rename_i hc
+          rw [if_pos hc] at e₂
+          cases e₁; cases e₂
+          exact ⟨h3.commit.uCommit, rfl⟩
+        · rename_i hc
+          rw [if_neg hc] at e₂
+          cases e₁; cases e₂
+          exact ⟨h3, rfl⟩
+
+end prune
+
 end Sys
 end Wormhole
